@@ -48,6 +48,23 @@ func runC03(c *vkit.Ctx, i int, h *History) {
 		c.Count("histories_through_shared_config_objects", 1)
 	}
 	s.seedPre(h)
+	if i%6 == 4 {
+		// between two calls something else changes one letter inside a stored entry, in place
+		// (same length, same inode, and - every mtime is backdated before each call - same
+		// modification time): the next call that addresses the entry must see the new text
+		er := c.Rand("edit", i)
+		s.BeforeStep = func(o Op) {
+			if er.IntN(4) != 0 {
+				return
+			}
+			if fs := s.MultiFiles(); len(fs) > 0 {
+				if s.ForeignEditEntry(fs[er.IntN(len(fs))], er.IntN) {
+					c.Count("foreign_in_place_edits_of_stored_entries", 1)
+				}
+			}
+		}
+		h.Classes["entries-edited-in-place-between-calls"] = true
+	}
 	nontrivial := false
 	shared := map[string]map[string]bool{}
 	for _, t := range h.Tests {
